@@ -1,0 +1,33 @@
+//go:build verif
+
+// Copyright © 2022-2026 Obol Labs Inc. Licensed under the terms of a Business Source License 1.1
+
+package priority
+
+import (
+	k1 "github.com/decred/dcrd/dcrec/secp256k1/v4"
+	"github.com/libp2p/go-libp2p/core/peer"
+	"google.golang.org/protobuf/proto"
+
+	pbv1 "github.com/obolnetwork/charon/core/corepb/v1"
+)
+
+// VerifCalculateResult exports calculateResult for the verification harness (build tag verif).
+func VerifCalculateResult(msgs []*pbv1.PriorityMsg, minRequired int) (*pbv1.PriorityResult, error) {
+	return calculateResult(msgs, minRequired)
+}
+
+// VerifHashProto exports hashProto for the verification harness.
+func VerifHashProto(msg proto.Message) ([32]byte, error) {
+	return hashProto(msg)
+}
+
+// VerifNewMsgVerifier exports newMsgVerifier for the verification harness.
+func VerifNewMsgVerifier(peers []peer.ID) (func(msg *pbv1.PriorityMsg) error, error) {
+	return newMsgVerifier(peers)
+}
+
+// VerifSignMsg exports signMsg for the verification harness.
+func VerifSignMsg(msg *pbv1.PriorityMsg, privkey *k1.PrivateKey) (*pbv1.PriorityMsg, error) {
+	return signMsg(msg, privkey)
+}
